@@ -80,12 +80,12 @@ def downscale_post(self, chunk, downscaling_factors, result):
         if np.isnan(chunk).all() or np.isnan(result).all():
             return True
         lo, hi = np.nanmin(chunk), np.nanmax(chunk)
-        pad = getattr(self, "pad_kwargs", {}).get("constant_values")
+        pad = _OUTSIDE.get(id(self))
         if pad is not None:
             lo, hi = min(lo, pad), max(hi, pad)
         return bool(np.nanmin(result) >= np.floor(lo) and np.nanmax(result) <= np.ceil(hi))
     lo, hi = chunk.min(), chunk.max()
-    pad = getattr(self, "pad_kwargs", {}).get("constant_values")
+    pad = _OUTSIDE.get(id(self))
     if pad is not None:
         if np.issubdtype(chunk.dtype, np.integer):
             info = np.iinfo(chunk.dtype)
@@ -96,11 +96,26 @@ def downscale_post(self, chunk, downscaling_factors, result):
     return bool(result.min() >= np.floor(lo) and result.max() <= np.ceil(hi))
 
 
+# outside value each AveragingDownscaler was CONSTRUCTED with (public constructor argument),
+# recorded by the harness itself: the contract must not depend on private attributes of the
+# implementation
+_OUTSIDE = {}
+
+
 def attach_downscale_contracts():
     if "downscale" in _attached:
         return
     _attached.add("downscale")
     from neuroglancer_scripts import downscaling as ds
+    orig_init = ds.AveragingDownscaler.__init__
+
+    def __init__(self, *a, **k):
+        orig_init(self, *a, **k)
+        try:
+            _OUTSIDE[id(self)] = a[0] if a else k.get("outside_value")
+        except Exception:
+            pass
+    ds.AveragingDownscaler.__init__ = __init__
     for cls in (ds.StridingDownscaler, ds.AveragingDownscaler, ds.MajorityDownscaler):
         cls.downscale = icontract.ensure(
             downscale_post, error=lambda self, chunk, downscaling_factors, result:
